@@ -3,7 +3,7 @@
    handle_trace_string_threadname on the model side), ChunksPairing.v (through the pairing machine), the regenerated
    rows for the path arguments of the syscalls.  Tie: correspondence of tools/props/C08.py. *)
 From Coq Require Import String ZArith NArith List Bool.
-From Kd Require Import theories.Base theories.Printers theories.Chunks theories.Pairing theories.ChunksPairing
+From Kd Require Import theories.Base theories.Printers theories.Chunks theories.ChunksWindow theories.Pairing theories.ChunksPairing
   theories.DecoderDSL theories.DecoderDeps theories.DecoderProps gen.GenEnums gen.GenDecoders.
 Import ListNotations.
 Open Scope N_scope.
@@ -18,6 +18,26 @@ Theorem c08_string_roundtrip : forall dbg sid text, dbg < 2 ^ 64 -> sid < 2 ^ 64
 Proof. exact gstring_roundtrip. Qed.
 Theorem c08_threadname_roundtrip : forall text, clean text -> thread_name (enc_name text) = text.
 Proof. exact name_roundtrip. Qed.
+
+(* 1b. ... with ARBITRARY unrelated same-thread records between the chunks: the decoder receives the whole window (C04 puts every
+       record of the thread and pairing domain there); whatever records of other event ids are merged, in whatever way, between the
+       chunks after the START chunk, the string / name / path is the one the kernel split (the decoders read the records of their own
+       id only - for lookups: the records the table names VFS_LOOKUP) *)
+Theorem c08_string_with_unrelated : forall c dbg sid text first rest foreign w,
+  dbg < 2 ^ 64 -> sid < 2 ^ 64 -> clean text -> enc_gstring dbg sid text = first :: rest ->
+  merge (tag c rest) foreign w -> Forall (fun r => fst r <> c) foreign ->
+  gstring_w ((c, first) :: w) = (dbg, sid, text).
+Proof. exact gstring_with_unrelated. Qed.
+Theorem c08_threadname_with_unrelated : forall c text first rest foreign w,
+  clean text -> enc_name text = first :: rest ->
+  merge (tag c rest) foreign w -> Forall (fun r => fst r <> c) foreign ->
+  name_w ((c, first) :: w) = text.
+Proof. exact name_with_unrelated. Qed.
+Theorem c08_lookup_with_unrelated : forall (lk : N -> bool) c vid text foreign w,
+  lk c = true -> vid < 2 ^ 64 -> clean text ->
+  merge (tag c (enc_lookup vid text)) foreign w -> Forall (fun r => lk (fst r) = false) foreign ->
+  vnodes_w lk w = [(vid, text)].
+Proof. exact lookup_with_unrelated. Qed.
 
 (* 2. exactly once: through the pairing machine, after ANY history, the records of a split text produce no trace
       until the END record, which delivers the whole run; a text that fits one record is delivered alone *)
